@@ -663,12 +663,13 @@ pub fn gen_problem(rng: &mut Rng, cfg: &GenCfg) -> SProblem {
             }
             let mut reloads = vec![];
             if cfg.reloads && rng.chance(2, 3) {
-                for _ in 0..rng.usize(1, 2) {
+                for k in 0..rng.usize(1, 2) {
                     reloads.push(SPlace {
                         loc: depot,
                         dur: rng.range(0, 20),
                         tws: vec![],
-                        tag: cfg.tags.then(|| "rl".to_string()),
+                        // with shared resources the reload places are told apart by their tags
+                        tag: (cfg.tags || cfg.shared_resources).then(|| if cfg.shared_resources { format!("rl{k}") } else { "rl".to_string() }),
                         resource: (cfg.shared_resources && rng.chance(2, 3)).then(|| "res0".to_string()),
                     });
                 }
